@@ -79,6 +79,22 @@ struct TrkMeta {
 	frozen: bool,
 	/// a pause / resume command was ever issued to it
 	ever_paused: bool,
+	/// `state()` after the last callback (a new track reports Playing)
+	last_state: TrackPlaybackState,
+	/// pause / resume commands issued since the last callback
+	pending_pause: bool,
+	pending_resume: bool,
+	/// `state()` was `WaitingToResume` after the last callback and no pause/resume was issued since
+	waiting: bool,
+	/// … and it still is after the callback just run: the track was waiting during the whole callback
+	waiting_through: bool,
+	/// the last callback that read a command of this track read a pause and no resume, and no resume was
+	/// issued since: the track has to stay Pausing / Paused
+	must_stay_paused: bool,
+	/// Playing before and after the callback just run with no command in between
+	steady_playing: bool,
+	/// Paused before and after the callback just run with no command in between
+	steady_paused: bool,
 }
 
 struct Scene {
@@ -96,6 +112,8 @@ struct Scene {
 	/// one entry per device frame rendered so far: (left, right, was a mono device frame)
 	stream: Vec<(f32, f32, bool)>,
 	clamped: bool,
+	/// what the documented signal flow needs to know (C02 reference, see `flow_reference`)
+	flow: Flow,
 }
 
 fn parse_fxlist(s: &str) -> Vec<(f32, f32, f32)> {
@@ -158,6 +176,17 @@ impl Scene {
 		}
 		false
 	}
+	/// is `t` or one of its ancestors known to have been WaitingToResume during the whole callback just run?
+	fn waiting_above(&self, t: Option<usize>) -> bool {
+		let mut cur = t;
+		while let Some(i) = cur {
+			if self.trk[i].waiting_through {
+				return true;
+			}
+			cur = self.trk[i].parent;
+		}
+		false
+	}
 	fn all_alive_above(&self, t: Option<usize>) -> bool {
 		let mut cur = t;
 		while let Some(i) = cur {
@@ -203,6 +232,297 @@ impl Scene {
 		}
 		false
 	}
+}
+
+// ---------------------------------------------------------------------------------------------
+// C02 reference: the documented signal-flow sum, evaluated in the harness
+// ---------------------------------------------------------------------------------------------
+
+/// A volume change the bookkeeping can follow: fixed target, immediate or delayed start.
+#[derive(Clone, Copy)]
+struct VolCmd {
+	db: f32,
+	delay: f64,
+	duration: f64,
+}
+impl VolCmd {
+	/// `None` for a clock start time (not followed: the flow reference stops for the case)
+	fn parse(db: f32, tween: &str) -> Option<Self> {
+		let p: Vec<&str> = tween.split(';').collect();
+		let delay = if p[0] == "imm" {
+			0.0
+		} else {
+			pu(p[0].strip_prefix("del:")?) as f64 / 1e9
+		};
+		Some(Self { db, delay, duration: pu(p[1]) as f64 / 1e9 })
+	}
+}
+/// A volume parameter followed in AUDIO TIME, the way the documentation states it (C06: the old value until the
+/// start time, from the end of the tween onward exactly the target): `settled_db` is its value when no command
+/// is `pending` (written, not yet read by a callback) or `inflight` (read, possibly not over).
+struct VolTrack {
+	settled_db: f32,
+	pending: Option<Option<VolCmd>>,
+	/// (command, audio time of the updates it has certainly seen, longest single update among them)
+	inflight: Option<(VolCmd, f64, f64)>,
+}
+impl VolTrack {
+	fn new(db: f32) -> Self {
+		Self { settled_db: db, pending: None, inflight: None }
+	}
+	/// the callback about to run reads the last command written; `false`: a command that cannot be followed
+	fn read(&mut self) -> bool {
+		match self.pending.take() {
+			Some(Some(c)) => self.inflight = Some((c, 0.0, 0.0)),
+			Some(None) => return false,
+			None => {}
+		}
+		true
+	}
+	/// `frames` more frames were rendered in updates of at most `ibs` frames. The delay is counted down in whole
+	/// updates and the update during which it runs out does not count towards the tween, so the tween has
+	/// certainly lasted `seen - delay - longest update`; one microsecond covers the nanosecond rounding of the
+	/// countdown. Once that reaches the duration the parameter sits on the target for good.
+	fn advance(&mut self, frames: usize, ibs: usize, sr: f64) {
+		if let Some((c, seen, longest)) = self.inflight.as_mut() {
+			*seen += frames as f64 / sr;
+			*longest = longest.max(frames.min(ibs) as f64 / sr);
+			if *seen - *longest >= c.delay + c.duration + 1e-6 {
+				self.settled_db = c.db;
+				self.inflight = None;
+			}
+		}
+	}
+	fn settled(&self) -> bool {
+		self.inflight.is_none()
+	}
+}
+struct FlowTrack {
+	parent: Option<usize>,
+	vol: VolTrack,
+	fx: Vec<(f32, f32, f32)>,
+	routes: Vec<(usize, VolTrack)>,
+}
+struct FlowSend {
+	vol: VolTrack,
+	fx: Vec<(f32, f32, f32)>,
+}
+struct Flow {
+	/// false from the first op the reference does not follow (a dropped track / send-track handle, a volume
+	/// tween that starts at a clock time)
+	valid: bool,
+	main_vol: VolTrack,
+	main_fx: Vec<(f32, f32, f32)>,
+	sends: Vec<FlowSend>,
+	tracks: Vec<FlowTrack>,
+	signals: Vec<Signal>,
+}
+impl Flow {
+	fn commands_are_read(&mut self) {
+		let mut ok = self.main_vol.read();
+		for s in self.sends.iter_mut() {
+			ok &= s.vol.read();
+		}
+		for t in self.tracks.iter_mut() {
+			ok &= t.vol.read();
+			for (_, r) in t.routes.iter_mut() {
+				ok &= r.read();
+			}
+		}
+		if !ok {
+			self.valid = false;
+		}
+	}
+}
+
+/// callbacks on which the flow reference was evaluated (reported on stderr when KV_FLOWSTAT is set)
+static FLOW_EVALUATED: std::sync::atomic::AtomicUsize = std::sync::atomic::AtomicUsize::new(0);
+static FLOW_CALLBACKS: std::sync::atomic::AtomicUsize = std::sync::atomic::AtomicUsize::new(0);
+
+/// documented decibel law (C19): -60 dB or less is silence, otherwise 10^(dB/20)
+fn flow_amp(db: f32) -> f64 {
+	if db <= -60.0 {
+		0.0
+	} else {
+		10f64.powf(db as f64 / 20.0)
+	}
+}
+/// a stereo value with a bound on the sum of the magnitudes of everything that went into it
+#[derive(Clone, Copy, Default)]
+struct Fv {
+	l: f64,
+	r: f64,
+	m: f64,
+}
+impl Fv {
+	fn add(&mut self, o: Fv) {
+		self.l += o.l;
+		self.r += o.r;
+		self.m += o.m;
+	}
+	fn scale(self, a: f64) -> Fv {
+		Fv { l: self.l * a, r: self.r * a, m: self.m * a.abs() }
+	}
+	/// memoryless probe effects: gain x + offset
+	fn fx(mut self, fx: &[(f32, f32, f32)]) -> Fv {
+		for &(g, o, _) in fx {
+			self = Fv {
+				l: self.l * g as f64 + o as f64,
+				r: self.r * g as f64 + o as f64,
+				m: self.m * (g as f64).abs() + (o as f64).abs(),
+			};
+		}
+		self
+	}
+}
+
+/// C02: "the rendered output is the sum described by the track documentation: each sound's signal multiplied by
+/// the volume (and pause fade) of every track on its path to the main track, plus that signal through every send
+/// route on the path (route volume x send-track volume), each track's effects applied at that track in order, all
+/// scaled by the main-track volume. Nothing else contributes."  Evaluated here, over f64, from what the harness
+/// itself knows: the probe sounds' signals (frame k of a sound is a function of k; k from the probe's own count),
+/// the probe effects' gains / offsets, the volumes every handle was last told (followed in audio time by
+/// `VolTrack`) and the state each track handle reports. Checked on the callbacks where that knowledge is complete:
+///   * no handle dropped yet, no clock-scheduled volume tween, only memoryless probe effects;
+///   * every volume parameter certainly at rest when the callback began;
+///   * every track Playing (fade at unity) or Paused (silent, feeds no send) before and after, no command between.
+/// The formula is `Mixer.spec` (Props/C02: C02_mixer_refines_spec, C02_mix_is_pointwise_sum, C02_final_stage).
+/// Tolerance: kira works in f32; every operation on a path (at most 4 tracks + send + main, each two effects, a
+/// volume and a sum of at most ~25 terms: < 200 operations) adds at most 2^-24 of the magnitudes involved, the
+/// f32 decibel conversions 1e-7 each: 4e-5 of the magnitude bound `m` (exactly representable scenes give 0).
+fn flow_reference(sc: &mut Scene, frames: usize, ch: u16, samples: &[f32], positions: &[(usize, usize)]) -> Option<String> {
+	let sr = sc.manager.backend_mut().sample_rate as f64;
+	let ibs = sc.ibs;
+	let n_tracks = sc.flow.tracks.len();
+	let advancing_above = |sc: &Scene, t: Option<usize>| -> bool {
+		let mut cur = t;
+		while let Some(i) = cur {
+			if !sc.trk[i].steady_playing {
+				return false;
+			}
+			cur = sc.trk[i].parent;
+		}
+		true
+	};
+	let mut verdict = None;
+	FLOW_CALLBACKS.fetch_add(1, std::sync::atomic::Ordering::Relaxed);
+	'eval: {
+		let fl = &sc.flow;
+		if !fl.valid || frames == 0 {
+			break 'eval;
+		}
+		let memoryless = |fx: &[(f32, f32, f32)]| fx.iter().all(|e| e.2 == 0.0);
+		if !memoryless(&fl.main_fx) || !fl.sends.iter().all(|s| memoryless(&s.fx)) || !fl.tracks.iter().all(|t| memoryless(&t.fx)) {
+			break 'eval;
+		}
+		if !fl.main_vol.settled()
+			|| !fl.sends.iter().all(|s| s.vol.settled())
+			|| !fl.tracks.iter().all(|t| t.vol.settled() && t.routes.iter().all(|r| r.1.settled()))
+		{
+			break 'eval;
+		}
+		if !(0..n_tracks).all(|t| sc.trk[t].steady_playing || sc.trk[t].steady_paused) {
+			break 'eval;
+		}
+		// every sound of an advancing branch that still has frames left was asked for exactly this callback
+		for (i, m) in sc.snd.iter().enumerate() {
+			let (before, asked) = positions[i];
+			let finished = m.length.map(|n| before >= n).unwrap_or(false);
+			let live = advancing_above(sc, m.track);
+			if (live && !finished && asked != frames) || (!live && asked != 0) {
+				break 'eval;
+			}
+		}
+		let children: Vec<Vec<usize>> =
+			(0..n_tracks).map(|p| (0..n_tracks).filter(|&c| fl.tracks[c].parent == Some(p)).collect()).collect();
+		fn sound_at(sig: Signal, length: Option<usize>, k: usize) -> Fv {
+			if length.map(|n| k >= n).unwrap_or(false) {
+				return Fv::default();
+			}
+			let (l, r) = match sig {
+				Signal::Index { base } => ((base + k as f32) as f64, (base + k as f32) as f64),
+				Signal::Constant { left, right } => (left as f64, right as f64),
+			};
+			Fv { l, r, m: l.abs().max(r.abs()) }
+		}
+		struct Ctx<'a> {
+			sc: &'a Scene,
+			children: &'a [Vec<usize>],
+			positions: &'a [(usize, usize)],
+			send_in: Vec<Fv>,
+		}
+		fn track_out(c: &mut Ctx, t: usize, j: usize) -> Fv {
+			if !c.sc.trk[t].steady_playing {
+				return Fv::default();
+			}
+			let mut acc = Fv::default();
+			for &ch in &c.children[t] {
+				let y = track_out(c, ch, j);
+				acc.add(y);
+			}
+			for (i, m) in c.sc.snd.iter().enumerate() {
+				if m.track == Some(t) && c.positions[i].1 > 0 {
+					acc.add(sound_at(c.sc.flow.signals[i], m.length, c.positions[i].0 + j));
+				}
+			}
+			let ft = &c.sc.flow.tracks[t];
+			let y = acc.fx(&ft.fx).scale(flow_amp(ft.vol.settled_db));
+			for (s, route) in &ft.routes {
+				let z = y.scale(flow_amp(route.settled_db));
+				c.send_in[*s].add(z);
+			}
+			y
+		}
+		let mut ctx = Ctx { sc, children: &children, positions, send_in: vec![] };
+		for j in 0..frames {
+			ctx.send_in = vec![Fv::default(); fl.sends.len()];
+			let mut bus = Fv::default();
+			for t in 0..n_tracks {
+				if fl.tracks[t].parent.is_none() {
+					let y = track_out(&mut ctx, t, j);
+					bus.add(y);
+				}
+			}
+			for (k, s) in fl.sends.iter().enumerate() {
+				bus.add(ctx.send_in[k].fx(&s.fx).scale(flow_amp(s.vol.settled_db)));
+			}
+			for (i, m) in sc.snd.iter().enumerate() {
+				if m.track.is_none() && positions[i].1 > 0 {
+					bus.add(sound_at(fl.signals[i], m.length, positions[i].0 + j));
+				}
+			}
+			let y = bus.fx(&fl.main_fx).scale(flow_amp(fl.main_vol.settled_db));
+			if j == 0 {
+				FLOW_EVALUATED.fetch_add(1, std::sync::atomic::Ordering::Relaxed);
+			}
+			let tol = 4e-5 * y.m + 1e-12;
+			let (l, r) = (y.l.clamp(-1.0, 1.0), y.r.clamp(-1.0, 1.0));
+			let want: Vec<f64> = if ch == 1 { vec![(l + r) / 2.0] } else { vec![l, r] };
+			for (c, w) in want.iter().enumerate() {
+				let got = samples[j * ch as usize + c] as f64;
+				if !((got - w).abs() <= tol) {
+					verdict = Some(format!("frame={} channel={} got={:e} documented={:e}", j, c, got, w));
+					break 'eval;
+				}
+			}
+		}
+	}
+	// the audio time this callback added to the volume tweens in flight. A track's own pause does not stop its
+	// volume tweens; below a track that is not steadily playing nothing is certain, so nothing is counted.
+	sc.flow.main_vol.advance(frames, ibs, sr);
+	for s in sc.flow.sends.iter_mut() {
+		s.vol.advance(frames, ibs, sr);
+	}
+	for t in 0..n_tracks {
+		if advancing_above(sc, sc.trk[t].parent) {
+			let ft = &mut sc.flow.tracks[t];
+			ft.vol.advance(frames, ibs, sr);
+			for (_, r) in ft.routes.iter_mut() {
+				r.advance(frames, ibs, sr);
+			}
+		}
+	}
+	verdict
 }
 
 /// the slice lengths a component that is processed for the whole callback must see
@@ -274,6 +594,14 @@ impl<'a> Exec<'a> {
 				cb_index: 0,
 				stream: vec![],
 				clamped: false,
+				flow: Flow {
+					valid: true,
+					main_vol: VolTrack::new(p32(tok[3])),
+					main_fx: parse_fxlist(tok[4]),
+					sends: vec![],
+					tracks: vec![],
+					signals: vec![],
+				},
 			});
 			return "ok".into();
 		}
@@ -287,6 +615,7 @@ impl<'a> Exec<'a> {
 					b = b.with_effect(e);
 				}
 				let h = sc.manager.add_send_track(b).expect("send track limit");
+				sc.flow.sends.push(FlowSend { vol: VolTrack::new(p32(tok[1])), fx: parse_fxlist(tok[2]) });
 				let k = sc.send_ids.len();
 				sc.send_ids.push(h.id());
 				sc.sends.insert(k, h);
@@ -319,7 +648,27 @@ impl<'a> Exec<'a> {
 					dropped_before_cb: None,
 					frozen: false,
 					ever_paused: false,
+					last_state: TrackPlaybackState::Playing,
+					pending_pause: false,
+					pending_resume: false,
+					waiting: false,
+					waiting_through: false,
+					must_stay_paused: false,
+					steady_playing: false,
+					steady_paused: false,
 				});
+				let routes = if tok[5] == "-" {
+					vec![]
+				} else {
+					tok[5]
+						.split(';')
+						.map(|it| {
+							let (s, db) = it.split_once(':').unwrap();
+							(parse_ref('s', s), VolTrack::new(p32(db)))
+						})
+						.collect()
+				};
+				sc.flow.tracks.push(FlowTrack { parent, vol: VolTrack::new(p32(tok[2])), fx: parse_fxlist(tok[4]), routes });
 				format!("t{}", id)
 			}
 			"play" => {
@@ -335,6 +684,7 @@ impl<'a> Exec<'a> {
 				};
 				let length = if tok[3] == "inf" { None } else { Some(pu(tok[3]) as usize) };
 				let log = new_log();
+				sc.flow.signals.push(signal);
 				let data = ProbeSoundData { signal, length, log: log.clone() };
 				let track = if tok[1] == "m" {
 					sc.manager.play(data).expect("play failed");
@@ -350,24 +700,37 @@ impl<'a> Exec<'a> {
 			"track.vol" => {
 				let tw = sc.parse_tween(tok[3]);
 				sc.tracks.get_mut(&parse_ref('t', tok[1])).unwrap().set_volume(p32(tok[2]), tw);
+				let cmd = VolCmd::parse(p32(tok[2]), tok[3]);
+				sc.flow.tracks[parse_ref('t', tok[1])].vol.pending = Some(cmd);
 				"ok".into()
 			}
 			"track.send" => {
 				let tw = sc.parse_tween(tok[4]);
 				let sid = sc.send_ids[parse_ref('s', tok[2])];
+				let cmd = VolCmd::parse(p32(tok[3]), tok[4]);
+				let s_idx = parse_ref('s', tok[2]);
 				match sc.tracks.get_mut(&parse_ref('t', tok[1])).unwrap().set_send(sid, p32(tok[3]), tw) {
-					Ok(()) => "ok".into(),
+					Ok(()) => {
+						for (s, v) in sc.flow.tracks[parse_ref('t', tok[1])].routes.iter_mut() {
+							if *s == s_idx {
+								v.pending = Some(cmd);
+							}
+						}
+						"ok".into()
+					}
 					Err(_) => "ok".into(),
 				}
 			}
 			"main.vol" => {
 				let tw = sc.parse_tween(tok[2]);
 				sc.manager.main_track().set_volume(p32(tok[1]), tw);
+				sc.flow.main_vol.pending = Some(VolCmd::parse(p32(tok[1]), tok[2]));
 				"ok".into()
 			}
 			"send.vol" => {
 				let tw = sc.parse_tween(tok[3]);
 				sc.sends.get_mut(&parse_ref('s', tok[1])).unwrap().set_volume(p32(tok[2]), tw);
+				sc.flow.sends[parse_ref('s', tok[1])].vol.pending = Some(VolCmd::parse(p32(tok[2]), tok[3]));
 				"ok".into()
 			}
 			"track.pause" => {
@@ -375,6 +738,8 @@ impl<'a> Exec<'a> {
 				let tw = sc.parse_tween(tok[2]);
 				sc.tracks.get_mut(&t).unwrap().pause(tw);
 				sc.trk[t].frozen = false;
+				sc.trk[t].waiting = false;
+				sc.trk[t].pending_pause = true;
 				sc.trk[t].ever_paused = true;
 				"ok".into()
 			}
@@ -384,6 +749,9 @@ impl<'a> Exec<'a> {
 				let tw = sc.parse_tween(tok[3]);
 				sc.tracks.get_mut(&t).unwrap().resume_at(st, tw);
 				sc.trk[t].frozen = false;
+				sc.trk[t].waiting = false;
+				sc.trk[t].pending_resume = true;
+				sc.trk[t].must_stay_paused = false;
 				sc.trk[t].ever_paused = true;
 				"ok".into()
 			}
@@ -391,11 +759,13 @@ impl<'a> Exec<'a> {
 				let t = parse_ref('t', tok[1]);
 				sc.tracks.remove(&t).expect("no such handle");
 				sc.trk[t].alive = false;
+				sc.flow.valid = false;
 				sc.trk[t].dropped_before_cb = Some(sc.cb_index);
 				"ok".into()
 			}
 			"send.drop" => {
 				sc.sends.remove(&parse_ref('s', tok[1])).expect("no such send handle");
+				sc.flow.valid = false;
 				"ok".into()
 			}
 			"clock.add" => {
@@ -435,6 +805,7 @@ impl<'a> Exec<'a> {
 					_ => vec![frames],
 				};
 				let mut all = vec![];
+				sc.flow.commands_are_read();
 				for &n in &parts {
 					let samples = sc.manager.backend_mut().callback(n, ch);
 					sc.cb_index += 1;
@@ -503,6 +874,48 @@ fn cb_oracles_and_report(
 	let mut rep: Vec<String> = vec![];
 	let mut any_unblocked_source = false;
 
+	// ---- C12: the state every live handle reports after this callback (querying it never panics)
+	let mut now: Vec<(usize, Option<TrackPlaybackState>)> = vec![];
+	for (&id, h) in sc.tracks.iter() {
+		match catch_unwind(AssertUnwindSafe(|| h.state())) {
+			Ok(s) => now.push((id, Some(s))),
+			Err(_) => {
+				now.push((id, None));
+				out.oracle_fail("state_panics", replay());
+			}
+		}
+	}
+	for (id, st) in now.iter() {
+		let m = &mut sc.trk[*id];
+		let quiet = !m.pending_pause && !m.pending_resume;
+		// waiting before, no command, still waiting: WaitingToResume can only be left for good (to Resuming,
+		// or back to Paused when its clock is gone), so the track was waiting during the whole callback
+		m.waiting_through = m.waiting && quiet && *st == Some(TrackPlaybackState::WaitingToResume);
+		m.steady_playing = quiet && m.last_state == TrackPlaybackState::Playing && *st == Some(TrackPlaybackState::Playing);
+		m.steady_paused = quiet && m.last_state == TrackPlaybackState::Paused && *st == Some(TrackPlaybackState::Paused);
+		// C12 "pausing a track freezes its subtree" until it is resumed: this callback read a pause and no
+		// resume for the track (commands of different kinds issued in the same interval are applied in a
+		// fixed order, so only intervals with pauses alone count) - from now on, and until a resume is
+		// issued, the handle has to report Pausing or Paused; in particular a resume_at that was pending
+		// when the pause arrived is cancelled
+		if m.pending_pause && !m.pending_resume {
+			m.must_stay_paused = true;
+		}
+		m.pending_pause = false;
+		m.pending_resume = false;
+		if m.must_stay_paused && !matches!(st, Some(TrackPlaybackState::Pausing) | Some(TrackPlaybackState::Paused) | None) {
+			out.oracle_fail("pause_is_final_until_resume", replay());
+		}
+	}
+	for m in sc.trk.iter_mut() {
+		if !m.alive {
+			m.waiting_through = false;
+			m.steady_playing = false;
+			m.steady_paused = false;
+		}
+	}
+	let mut positions: Vec<(usize, usize)> = vec![];
+
 	// ---- sounds
 	for i in 0..sc.snd.len() {
 		let (slices, osp, dts_ok, produced_before): (Vec<usize>, usize, bool, usize) = {
@@ -529,10 +942,17 @@ fn cb_oracles_and_report(
 			out.oracle_fail("probe_slices", replay());
 		}
 		let finished_before = m.length.map(|n| produced_before >= n).unwrap_or(false);
+		positions.push((produced_before, slices.iter().sum()));
 		let frozen = sc.frozen_above(m.track);
 		// C12: pause freezes positions
 		if frozen && !slices.is_empty() {
 			out.oracle_fail("pause_freezes", replay());
+		}
+		// C12: … and so does waiting for the start time of a resume_at ("resuming, immediately or at a start
+		// time, continues every sound from exactly the frame where it froze": nothing below a track that is
+		// WaitingToResume may be asked for a frame)
+		if sc.waiting_above(m.track) && !slices.is_empty() {
+			out.oracle_fail("waiting_freezes", replay());
 		}
 		// C02: every live sound of an advancing branch is asked for every frame exactly once, in order
 		let must = m.played_before_cb <= cb
@@ -593,6 +1013,9 @@ fn cb_oracles_and_report(
 		if frozen && !slices.is_empty() {
 			out.oracle_fail("pause_freezes", replay());
 		}
+		if sc.waiting_above(m.track) && !slices.is_empty() {
+			out.oracle_fail("waiting_freezes", replay());
+		}
 		let owner_added = m.track.map(|t| sc.trk[t].added_before_cb <= cb).unwrap_or(true);
 		let must = owner_added && sc.all_alive_above(m.track) && sc.never_paused_above(m.track) && m.track.is_some();
 		if must && slices != pattern {
@@ -617,16 +1040,17 @@ fn cb_oracles_and_report(
 			break;
 		}
 	}
-	// ---- C12: state observation for the next callback; never panics; live handles keep their tracks
-	let ids: Vec<usize> = sc.tracks.keys().copied().collect();
-	for id in ids {
-		let h = &sc.tracks[&id];
-		match catch_unwind(AssertUnwindSafe(|| h.state())) {
-			Ok(s) => sc.trk[id].frozen = s == TrackPlaybackState::Paused,
-			Err(_) => {
-				sc.trk[id].frozen = false;
-				out.oracle_fail("state_panics", replay());
-			}
+	// ---- C02: the documented signal-flow sum
+	if let Some(detail) = flow_reference(sc, frames, ch, samples, &positions) {
+		out.oracle_fail("signal_flow_sum", format!("{} {}", detail, replay()));
+	}
+	// ---- C12: what was observed now becomes the "before" of the next callback; live handles keep their tracks
+	for (id, st) in now.iter() {
+		let m = &mut sc.trk[*id];
+		m.frozen = *st == Some(TrackPlaybackState::Paused);
+		m.waiting = *st == Some(TrackPlaybackState::WaitingToResume);
+		if let Some(st) = st {
+			m.last_state = *st;
 		}
 	}
 	let top_live = (0..sc.trk.len()).filter(|&t| sc.trk[t].parent.is_none() && sc.subtree_has_live_handle(t)).count();
@@ -707,10 +1131,17 @@ pub enum Mode {
 fn oracle_wanted(mode: Mode, line: &str) -> bool {
 	let name = line.split_whitespace().nth(1).unwrap_or("");
 	match mode {
-		Mode::Flow => matches!(name, "probe_slices" | "each_frame_once" | "silent_branches" | "channel_layout" | "superposition"),
+		Mode::Flow => matches!(
+			name,
+			"probe_slices" | "each_frame_once" | "silent_branches" | "channel_layout" | "superposition" | "signal_flow_sum"
+		),
 		Mode::Tracks => matches!(
 			name,
-			"pause_freezes" | "removed_track_still_processed" | "persist_track_lost_sound" | "state_panics" | "live_handle_track_removed"
+			"pause_freezes"
+				| "removed_track_still_processed"
+				| "persist_track_lost_sound"
+				| "state_panics" | "live_handle_track_removed"
+				| "waiting_freezes" | "pause_is_final_until_resume"
 		),
 		Mode::Partition => matches!(name, "buffer_size_invariance" | "probe_slices"),
 	}
@@ -776,6 +1207,13 @@ pub fn run(ops: &[String], mode: Mode) -> Vec<String> {
 			}
 		}
 	});
+	if std::env::var_os("KV_FLOWSTAT").is_some() {
+		eprintln!(
+			"flow reference evaluated on {} of {} callbacks",
+			FLOW_EVALUATED.load(std::sync::atomic::Ordering::Relaxed),
+			FLOW_CALLBACKS.load(std::sync::atomic::Ordering::Relaxed)
+		);
+	}
 	lines.into_iter().filter(|l| !l.starts_with("!oracle") || oracle_wanted(mode, l)).collect()
 }
 
@@ -1001,8 +1439,147 @@ impl<'a> Gen<'a> {
 	}
 }
 
+/// A directed family for C02's "fixed or tweened volumes" on histories with a pause: a chain of tracks with
+/// memoryless probe effects (optionally routed to a send track) at a low sample rate, one track of the chain is
+/// paused, its volume / a route volume is changed while it is paused (or the pause arrives while such a tween
+/// runs), enough audio time passes for the tween to be over, the track is resumed and, once it is playing
+/// again, rendered some more. All sizes, levels, durations and the split into callbacks are random.
+fn gen_volume_during_pause(rng: &mut Rng, k: usize, stats: &mut Stats) -> Vec<String> {
+	stats.hit("case_volume_during_pause");
+	let mut out = vec![format!("case {}", k)];
+	let ibs = rng.pick(&[1usize, 2, 3, 4, 8, 16]);
+	let sr = rng.pick(&[100u64, 1000]);
+	let ns = |frames: u64| frames * (1_000_000_000 / sr);
+	let db = |rng: &mut Rng| -> f32 {
+		if rng.chance(1, 4) {
+			rng.uniform(-30.0, 6.0) as f32
+		} else {
+			rng.pick(&[0.0f32, -6.0, -3.0, 6.0, -12.5, 0.0, -20.0])
+		}
+	};
+	let fx = |rng: &mut Rng| -> String {
+		let n = rng.below(3);
+		if n == 0 {
+			return "-".into();
+		}
+		(0..n)
+			.map(|_| {
+				format!(
+					"{},{},{}",
+					o32(rng.pick(&[1.0f32, 0.5, -1.0, 2.0, 0.25, 0.75, 1.5])),
+					o32(rng.pick(&[0.0f32, 0.0, 0.0, 0.125, -0.25, 0.01])),
+					o32(0.0)
+				)
+			})
+			.collect::<Vec<_>>()
+			.join(";")
+	};
+	let tween = |rng: &mut Rng, delay: u64, frames: u64| -> String {
+		let start = if delay == 0 {
+			rng.pick(&["imm", "imm", "del:0"]).to_string()
+		} else {
+			format!("del:{}", ns(delay))
+		};
+		format!("{};{};{}", start, ns(frames), fmt_easing(&gen_easing(rng)))
+	};
+	let cbs = |rng: &mut Rng, out: &mut Vec<String>, mut frames: u64| {
+		while frames > 0 {
+			let n = (1 + rng.below(40)).min(frames);
+			let ch = match rng.below(4) {
+				0 => 1,
+				1 | 2 => 2,
+				_ => 3 + rng.below(4),
+			};
+			out.push(format!("cb {} {}", n, ch));
+			frames -= n;
+		}
+	};
+	let main_db = db(rng);
+	out.push(format!("init {} {} {} {}", ibs, sr, o32(main_db), fx(rng)));
+	let has_send = rng.chance(2, 3);
+	if has_send {
+		let d = db(rng);
+		out.push(format!("send.add {} {}", o32(d), fx(rng)));
+	}
+	let depth = 1 + rng.below(3) as usize;
+	let mut routed = vec![];
+	for t in 0..depth {
+		let d = db(rng);
+		let route = has_send && rng.chance(1, 2);
+		let sends = if route { format!("s0:{}", o32(db(rng))) } else { "-".into() };
+		routed.push(route);
+		let f = fx(rng);
+		out.push(format!(
+			"track.add {} {} 0 {} {}",
+			if t == 0 { "m".to_string() } else { format!("t{}", t - 1) },
+			o32(d),
+			f,
+			sends
+		));
+	}
+	for _ in 0..1 + rng.below(2) {
+		let t = rng.below(depth as u64);
+		let sig = if rng.chance(1, 2) {
+			format!("const:{}:{}", o32(rng.uniform(-0.4, 0.4) as f32), o32(rng.uniform(-0.4, 0.4) as f32))
+		} else {
+			format!("idx:{}", o32(rng.pick(&[0.001f32, 0.0078125, -0.5, 0.1])))
+		};
+		out.push(format!("play t{} {} inf", t, sig));
+	}
+	let n = 1 + rng.below(2 * ibs as u64 + 2);
+	cbs(rng, &mut out, n);
+	let x = rng.below(depth as u64) as usize;
+	// the volume change(s): a track volume or a route volume of the paused track
+	let (v_delay, v_frames) = (if rng.chance(1, 3) { rng.below(6) } else { 0 }, 8 + rng.below(40));
+	let change = |rng: &mut Rng, out: &mut Vec<String>| {
+		let d = db(rng);
+		if routed[x] && rng.chance(1, 2) {
+			out.push(format!("track.send t{} s0 {} {}", x, o32(d), tween(rng, v_delay, v_frames)));
+		} else {
+			out.push(format!("track.vol t{} {} {}", x, o32(d), tween(rng, v_delay, v_frames)));
+		}
+	};
+	let (p_delay, p_frames) = (if rng.chance(1, 4) { rng.below(4) } else { 0 }, rng.below(12));
+	let slack = ibs as u64 + 2;
+	if rng.chance(1, 3) {
+		// the pause arrives while the tween runs
+		change(rng, &mut out);
+		let n = 1 + rng.below(v_frames / 2);
+		cbs(rng, &mut out, n);
+		out.push(format!("track.pause t{} {}", x, tween(rng, p_delay, p_frames)));
+	} else {
+		out.push(format!("track.pause t{} {}", x, tween(rng, p_delay, p_frames)));
+		let n = p_delay + p_frames + slack + rng.below(4);
+		cbs(rng, &mut out, n);
+		change(rng, &mut out);
+		if rng.chance(1, 4) {
+			change(rng, &mut out);
+		}
+	}
+	// audio time for the tween to be over while the track is paused (sometimes not quite)
+	let wait = v_delay + v_frames + p_delay + p_frames + 2 * slack;
+	let n = if rng.chance(1, 6) { rng.below(wait) + 1 } else { wait + rng.below(6) };
+	cbs(rng, &mut out, n);
+	out.push("q".into());
+	let r_frames = rng.below(5);
+	out.push(format!("track.resume t{} imm {}", x, tween(rng, 0, r_frames)));
+	cbs(rng, &mut out, r_frames + slack);
+	let n = 2 + rng.below(2 * ibs as u64 + 6);
+	cbs(rng, &mut out, n);
+	let n = 1 + rng.below(ibs as u64 + 3);
+	cbs(rng, &mut out, n);
+	out.push("q".into());
+	for l in &out[1..] {
+		stats.hit(l.split(' ').next().unwrap());
+	}
+	out
+}
+
 fn gen_case(rng: &mut Rng, k: usize, mode: Mode, stats: &mut Stats) -> Vec<String> {
 	let kind = rng.below(10);
+	if mode == Mode::Flow && kind >= 4 && rng.chance(1, 6) {
+		return gen_volume_during_pause(rng, k, stats);
+	}
 	let (is_static, is_linear) = match mode {
 		Mode::Flow => match kind {
 			0 | 1 | 2 | 3 => (true, true),
